@@ -269,7 +269,7 @@ class Gen:
             return self.multi(scope, chans, depth - 1, dur=dur, force=force)
         if r < 0.8:
             d = dur if dur is not None else self.time_expr(scope, force)
-            lhs = self.atomic(scope, chans, depth - 1, dur=self.vary(d, scope))
+            lhs = self.atomic(scope, chans, depth - 1, dur=copy.deepcopy(d))
             rhs = self.atomic(scope, chans, depth - 1, dur=self.vary(d, scope))
             return {'t': 'arith', 'lhs': lhs, 'rhs': rhs, 'op': rng.choice(['+', '-'])}
         if r < 0.9:
@@ -305,7 +305,7 @@ class Gen:
             d = var(self.new_param('t', F(1000000), 'time'))
         subs = []
         for i, p in enumerate(parts):
-            di = copy.deepcopy(d) if (i == 0 and force is not None) else self.vary(d, scope)
+            di = copy.deepcopy(d) if i == 0 else self.vary(d, scope)
             subs.append(self.atomic(scope, p, depth - 1, dur=di))
         decl = None
         if rng.random() < 0.35:
@@ -638,8 +638,12 @@ def run_impl(case):
                 if prog is None:
                     out['prog'] = None
                     return out
-                out['prog'] = {'loop': vlib.frac_json(prog.duration), 'wf': vlib.frac_json(to_waveform(prog).duration),
-                               'pieces': vlib.frac_json(sum_pieces(prog))}
+                out['prog'] = {'loop': vlib.frac_json(prog.duration), 'pieces': vlib.frac_json(sum_pieces(prog))}
+                try:
+                    out['prog']['wf'] = vlib.frac_json(to_waveform(prog).duration)
+                except (ValueError, AssertionError) as e:
+                    out['prog']['wf'] = None
+                    out['prog']['wf_exc'] = '%s: %s' % (type(e).__name__, str(e)[:100])
                 return out
         except vlib.Timeout:
             return {'hang': True}
@@ -775,7 +779,8 @@ def to_coq(case, obs):
     elif 'err' in pr:
         prog = '(IErr %s)' % ('XMissing' if pr['err'] == 'missing' else 'XValue')
     else:
-        prog = '(IProg %s %s %s)' % (gQ(F(pr['loop'])), gQ(F(pr['wf'])), gQ(F(pr['pieces'])))
+        prog = '(IProg %s %s %s)' % (gQ(F(pr['loop'])), 'None' if pr['wf'] is None else '(Some %s)' % gQ(F(pr['wf'])),
+                                     gQ(F(pr['pieces'])))
     return '(CTpl %s %s %s %s)' % (g_pt(case['tpl'], ids), env, sym, prog)
 
 
@@ -834,11 +839,22 @@ def classify(case, obs):
     if pr is not None and 'err' in pr:
         return None
     sp = c04_spec.spec(case)
+    if sp[0] == 'ok' and pr is not None and pr.get('wf', 0) is None and has_func_in_parallel(case['tpl']):
+        return 'C04-zero-length-function-leaf'
     if sp[0] != 'undef':
         return None
     if sp[1] == 'non_integer' and not c04_spec.near_integer_input(case):
         return None
     return FINDING_OF_REASON.get(sp[1])
+
+
+def has_func_in_parallel(t, inside=False):
+    k = t['t']
+    if k == 'func':
+        return inside
+    inside = inside or k in ('multi', 'arith')
+    return any(has_func_in_parallel(c, inside) for c in t.get('subs', [])) or \
+        any(has_func_in_parallel(t[key], inside) for key in ('body', 'lhs', 'rhs') if key in t)
 
 
 def search_failing(ctx, broken):
@@ -857,7 +873,7 @@ def search_failing(ctx, broken):
         pr = obs['prog']
         if pr is not None and 'err' in pr:
             continue
-        got = [F(0)] * 3 if pr is None else [F(pr['loop']), F(pr['wf']), F(pr['pieces'])]
+        got = [F(0)] * 3 if pr is None else [F(pr['loop']), None if pr['wf'] is None else F(pr['wf']), F(pr['pieces'])]
         if any(g != sp[1] for g in got):
             return case, obs, 'the template denotes the duration %s, the program reports loop/waveform/pieces = %s' % (
                 sp[1], [str(g) for g in got])
